@@ -73,6 +73,12 @@ impl CancellationToken {
         } else {
             self.0.fetch_and(!Self::DISABLED_MASK, Ordering::Relaxed)
         };
+        #[cfg(salsa_rs_salsa_verif)]
+        crate::verif_conc::emit(crate::verif_conc::Ev::TokSetDisabled {
+            handle: Arc::as_ptr(&self.0) as usize,
+            disabled,
+            prev: previous_disabled_bit,
+        });
         previous_disabled_bit & Self::DISABLED_MASK != 0
     }
 
@@ -82,6 +88,21 @@ impl CancellationToken {
 
     fn reset(&self) {
         self.0.store(0, Ordering::Relaxed);
+        #[cfg(salsa_rs_salsa_verif)]
+        crate::verif_conc::emit(crate::verif_conc::Ev::TokReset {
+            handle: Arc::as_ptr(&self.0) as usize,
+        });
+    }
+}
+
+#[cfg(salsa_rs_salsa_verif)]
+impl ZalsaLocal {
+    pub(crate) fn verif_handle(&self) -> usize {
+        Arc::as_ptr(&self.cancelled.0) as usize
+    }
+
+    pub(crate) fn verif_token_byte(&self) -> u8 {
+        self.cancelled.0.load(Ordering::Relaxed)
     }
 }
 
